@@ -6,3 +6,200 @@ pub proof fn thm_C03_len(x: BBSplusPoKSignature)   //# C03.thm.len
 {
     lemma_proof_len(x);
 }
+
+/// a valid signature satisfies A * (SK + e) == B   (from the pairing equation; PK = BP2 * SK)
+pub proof fn lemma_valid_sig_relation(sk: Scalar, a: G1Projective, e: Scalar, b: G1Projective)   //# C03.thm.sig_relation
+    requires pairing_check(g2_mul(g2_gen(), sk), a, e, b),
+    ensures g1_mul(a, s_add(sk, e)) == b,
+{
+    let w = s_add(sk, e);
+    ax_g2_mul_sadd(g2_gen(), sk, e);
+    ax_pair_move(a, w);
+    ax_pair_eq(g1_mul(a, w), b);
+}
+
+/// Bbar = D*r1 - Abar*e == Abar * SK  when  A*(SK+e) == B,  D = B*r2,  Abar = A*(r1*r2)
+pub proof fn lemma_bbar(a: G1Projective, b: G1Projective, sk: Scalar, e: Scalar, r1: Scalar, r2: Scalar)   //# C03.thm.bbar
+    requires g1_mul(a, s_add(sk, e)) == b,
+    ensures pi_bbar(pi_d(b, r2), r1, pi_abar(a, r1, r2), e) == g1_mul(pi_abar(a, r1, r2), sk),
+{
+    let w = s_add(sk, e);
+    let k = s_mul(r1, r2);
+    // D*r1 = A*(w*(r2*r1)) = A*(k*w) = A*(k*sk) + A*(k*e)
+    ax_g1_mul_mul(a, w, r2);
+    ax_g1_mul_mul(a, s_mul(w, r2), r1);
+    ax_s_mul_assoc(w, r2, r1);
+    ax_s_mul_comm(r2, r1);
+    ax_s_mul_comm(w, k);
+    ax_s_distrib(k, sk, e);
+    ax_g1_mul_sadd(a, s_mul(k, sk), s_mul(k, e));
+    assert(g1_mul(pi_d(b, r2), r1) == g1_add(g1_mul(a, s_mul(k, sk)), g1_mul(a, s_mul(k, e))));
+    // Abar*e = A*(k*e),  Abar*sk = A*(k*sk)
+    ax_g1_mul_mul(a, k, e);
+    ax_g1_mul_mul(a, k, sk);
+    let x = g1_mul(a, s_mul(k, sk));
+    let y = g1_mul(a, s_mul(k, e));
+    ax_g1_add_assoc(x, y, g1_neg(y));
+    ax_g1_add_neg(y);
+    ax_g1_add_zero(x);
+}
+
+/// T1 recomputation: Bbar*c + Abar*e^ + D*r1^ == Abar*e~ + D*r1~
+pub proof fn lemma_t1(abar: G1Projective, d: G1Projective, e: Scalar, r1: Scalar, c: Scalar, et: Scalar, r1t: Scalar)   //# C03.thm.t1
+    ensures ({
+        let bbar = pi_bbar(d, r1, abar, e);
+        let e_cap = s_add(et, s_mul(e, c));
+        let r1_cap = s_sub(r1t, s_mul(r1, c));
+        g1_add(g1_add(g1_mul(bbar, c), g1_mul(abar, e_cap)), g1_mul(d, r1_cap)) == pi_t1(abar, et, d, r1t)
+    }),
+{
+    let x = g1_mul(d, s_mul(r1, c));
+    let y = g1_mul(abar, s_mul(e, c));
+    let z = g1_mul(abar, et);
+    let w = g1_mul(d, r1t);
+    let bbar = pi_bbar(d, r1, abar, e);
+    ax_g1_mul_padd(g1_mul(d, r1), g1_neg(g1_mul(abar, e)), c);
+    ax_g1_mul_pneg(g1_mul(abar, e), c);
+    ax_g1_mul_mul(d, r1, c);
+    ax_g1_mul_mul(abar, e, c);
+    assert(g1_mul(bbar, c) == g1_add(x, g1_neg(y)));
+    ax_g1_mul_sadd(abar, et, s_mul(e, c));
+    ax_g1_mul_sadd(d, r1t, s_neg(s_mul(r1, c)));
+    ax_g1_mul_sneg(d, s_mul(r1, c));
+    lemma_cancel4(x, y, z, w);
+}
+
+/// T2 recomputation: fold(Bv*c + D*r3^, m^) == fold(D*r3~, m~)  when  B = fold(Bv, m_undisclosed), D = B*r2
+pub proof fn lemma_t2(bv: G1Projective, b: G1Projective, r2: Scalar, r3t: Scalar, c: Scalar, h: Seq<G1Projective>,
+    mh: Seq<Scalar>, mt: Seq<Scalar>, mu: Seq<Scalar>, und: Seq<usize>)   //# C03.thm.t2
+    requires
+        r2 != s_zero(),
+        b == fold_idx(bv, h, mu, und, und.len() as int),
+        mh.len() == und.len(), mt.len() == und.len(), mu.len() == und.len(),
+        forall|j: int| 0 <= j < und.len() ==> mh[j] == s_add(mt[j], s_mul(mu[j], c)),
+    ensures ({
+        let d = pi_d(b, r2);
+        let r3_cap = s_sub(r3t, s_mul(s_inv(r2), c));
+        fold_idx(g1_add(g1_mul(bv, c), g1_mul(d, r3_cap)), h, mh, und, und.len() as int)
+            == fold_idx(g1_mul(d, r3t), h, mt, und, und.len() as int)
+    }),
+{
+    let n = und.len() as int;
+    let d = pi_d(b, r2);
+    let su = fold_sum(h, mu, und, n);
+    let st = fold_sum(h, mt, und, n);
+    let x = g1_mul(bv, c);
+    let y = g1_mul(su, c);
+    let z = g1_mul(d, r3t);
+    // D * (1/r2 * c) == B * c == Bv*c + Su*c
+    ax_g1_mul_mul(d, s_inv(r2), c);
+    ax_g1_mul_mul(b, r2, s_inv(r2));
+    ax_s_inv(r2);
+    ax_g1_mul_one(b);
+    lemma_fold_split(bv, h, mu, und, n);
+    ax_g1_mul_padd(bv, su, c);
+    assert(g1_mul(d, s_mul(s_inv(r2), c)) == g1_add(x, y));
+    // D * r3^ == z - (x + y)
+    ax_g1_mul_sadd(d, r3t, s_neg(s_mul(s_inv(r2), c)));
+    ax_g1_mul_sneg(d, s_mul(s_inv(r2), c));
+    let x0 = g1_add(x, g1_add(z, g1_neg(g1_add(x, y))));
+    // fold(x0, m^) == fold(x0, m~) + Su*c == (x0 + St) + y == x0 + (St + y) == z + St
+    lemma_fold_lin(x0, h, mh, mt, mu, c, und, n);
+    lemma_fold_split(x0, h, mt, und, n);
+    ax_g1_add_assoc(x0, st, y);
+    lemma_cancel_t2(x, y, z, st);
+    lemma_fold_split(z, h, mt, und, n);
+}
+
+/// C03 at the core level: a proof generated (CoreProofGen, any random scalars with r1, r2 != 0) from a signature that
+/// satisfies the verification equation is accepted by CoreProofVerify for the disclosed messages - for every message
+/// vector, every ascending disclosed-index set, every header / presentation header.
+pub proof fn thm_C03_core<CS: BbsCiphersuite>(p: BBSplusPoKSignature, sk: Scalar, sig: BBSplusSignature, p1: G1Projective, gens: Seq<G1Projective>,
+    m: Seq<Scalar>, di: Seq<usize>, header: Seq<u8>, ph: Seq<u8>, api_id: Seq<u8>, rs: Seq<Scalar>)   //# C03.thm.core
+    requires
+        core_proof_gen_ok::<CS>(gens.len() as int, m.len() as int, di, api_id),
+        strictly_sorted(di),
+        m.len() <= usize::MAX,
+        rs.len() == 5 + complement(m.len() as int, di).len(),
+        rs[0] != s_zero(), rs[1] != s_zero(),                                          // H-nz: r1, r2 != 0
+        sk != s_zero(), sig.A != g1_zero(), s_add(sk, sig.e) != s_zero(),               // H-nz
+        core_verify_spec::<CS>(g2_mul(g2_gen(), sk), sig, m, p1, gens, header, api_id),  // the signature verifies
+        core_proof_gen_rel::<CS>(p, g2_mul(g2_gen(), sk), sig, p1, gens, m, di, header, ph, api_id, rs),
+    ensures
+        proof_verify_spec::<CS>(g2_mul(g2_gen(), sk), p, p1, gens, header, ph, select(m, di), di, api_id),
+{
+    let pk = g2_mul(g2_gen(), sk);
+    let l = m.len() as int;
+    let h = gens.subrange(1, gens.len() as int);
+    let domain = domain_spec::<CS>(pk, gens[0], h, header, api_id);
+    let base = g1_add(p1, g1_mul(gens[0], domain));
+    let b = b_spec(p1, gens[0], domain, h, m);
+    let und = complement(l, di);
+    let u = und.len() as int;
+    let r = di.len() as int;
+    let dm = select(m, di);
+    let mu = select(m, und);
+    let init = proof_init_spec::<CS>(pk, sig, p1, gens, rs, header, m, und, api_id);
+    let c = p.challenge;
+    let (r1, r2) = (rs[0], rs[1]);
+    let mt = rs.subrange(5, 5 + u);
+    // |und| + |di| == L
+    assert forall|i: int, j: int| 0 <= i < j < di.len() implies di[i] != di[j] by {}
+    lemma_complement_len_exact(l, di);
+    assert(p.m_cap@.len() == u);
+    // the signature relation and the three non-identity conditions
+    lemma_valid_sig_relation(sk, sig.A, sig.e, b);
+    lemma_g1_mul_nonzero(sig.A, s_add(sk, sig.e));
+    lemma_s_mul_nonzero(r1, r2);
+    lemma_g1_mul_nonzero(sig.A, s_mul(r1, r2));
+    lemma_g1_mul_nonzero(b, r2);
+    lemma_bbar(sig.A, b, sk, sig.e, r1, r2);
+    lemma_g1_mul_nonzero(init.Abar, sk);
+    // pairing: e(Abar, PK) * e(Bbar, -BP2) == 1
+    ax_pair_move(init.Abar, sk);
+    ax_pair_eq(g1_mul(init.Abar, sk), init.Bbar);
+    // T1
+    lemma_t1(init.Abar, init.D, sig.e, r1, c, rs[2], rs[3]);
+    assert(pv_t1(p) == init.T1);
+    // B == fold(Bv, undisclosed)
+    lemma_partition(base, h, m, di, l);
+    lemma_rank_index(di, l);
+    assert(rank(di, l) == r) by {
+        if rank(di, l) < r { assert(di[rank(di, l)] >= l); }
+    }
+    let bv = pv_bv(p1, gens[0], domain, h, dm, di);
+    assert(b == fold_idx(bv, h, mu, und, u));
+    // T2
+    assert forall|j: int| 0 <= j < u implies (#[trigger] p.m_cap@[j]) == s_add(mt[j], s_mul(mu[j], c)) by {}
+    lemma_t2(bv, b, r2, rs[4], c, h, p.m_cap@, mt, mu, und);
+    assert(pv_t2(p, bv, h, und) == init.T2);
+}
+
+/// C03 at the API level: ProofVerify(ProofGen(sig, header, ph, msgs, disclosed), header, ph, disclosed msgs, disclosed) holds for
+/// every message list, every ascending disclosed-index set, every header / presentation header, both suites (generic CS),
+/// whenever the signature octets are a signature that verifies for (header, msgs).
+pub proof fn thm_C03<CS: BbsCiphersuite>(p: BBSplusPoKSignature, sk: Scalar, sig: Seq<u8>, header: Seq<u8>, ph: Seq<u8>,
+    msgs: Seq<Vec<u8>>, di: Seq<usize>, dmsgs: Seq<Vec<u8>>, rs: Seq<Scalar>)   //# C03.thm
+    requires
+        proof_gen_ok::<CS>(sig, msgs.len() as int, di),
+        strictly_sorted(di),
+        msgs.len() < usize::MAX,
+        rs.len() == 5 + msgs.len() - di.len(),
+        rs[0] != s_zero(), rs[1] != s_zero(), sk != s_zero(), s_add(sk, sig_of_octets(sig).e) != s_zero(),      // H-nz
+        verify_spec::<CS>(g2_mul(g2_gen(), sk), sig_of_octets(sig), msgs, header),
+        proof_gen_rel::<CS>(p, g2_mul(g2_gen(), sk), sig, header, ph, msgs, di, rs),
+        dmsgs.len() == di.len(),
+        forall|k: int| 0 <= k < di.len() ==> dmsgs[k]@ == (#[trigger] msgs[di[k] as int])@,
+    ensures
+        proof_verify_api_spec::<CS>(g2_mul(g2_gen(), sk), p, dmsgs, di, header, ph),
+{
+    CS::consts_facts();
+    let l = msgs.len() as int;
+    let m = msgs_to_scalars_spec::<CS>(msgs, CS::API_ID@);
+    let gens = generators_spec::<CS>((msgs.len() + 1) as nat, CS::API_ID@);
+    assert forall|i: int, j: int| 0 <= i < j < di.len() implies di[i] != di[j] by {}
+    lemma_complement_len_exact(l, di);
+    thm_C03_core::<CS>(p, sk, sig_of_octets(sig), p1_spec::<CS>(), gens, m, di, header, ph, CS::API_ID@, rs);
+    assert(p.m_cap@.len() + di.len() == l);
+    assert(msgs_to_scalars_spec::<CS>(dmsgs, CS::API_ID@) =~= select(m, di));
+}
